@@ -162,8 +162,10 @@ StreamsManagerBase<MAX_STREAMS> {
     /// Signals all `Stream`s to end as soon as possible (making them reach their "out of elements" phase).\
     /// Any parked streams are awaken, so they may end as well.
     pub fn cancel_all_streams(&self) {
-        let used_streams = unsafe { &* self.used_streams.get() };
         #[cfg(feature = "verif")] crate::verif::yield_point("sm.cancel_all.read_used");
+        // work on a copy: a cancelled stream may end and be dropped right away (on another thread), which rebuilds `used_streams`
+        // -- shifting its entries down -- while we are still iterating: streams would be skipped and never told to end
+        let used_streams: [u32; MAX_STREAMS] = **unsafe { &* self.used_streams.get() };
         for stream_id in used_streams.iter() {
             if *stream_id == u32::MAX {
                 break
